@@ -122,6 +122,12 @@ func (am *YAMLAccountManager) Update(account hotline.Account, newLogin string) e
 			return fmt.Errorf("rename account %s to %s: %w", oldLogin, newLogin, os.ErrExist)
 		}
 
+		// Two logins can share one file name ("./bob" and "bob"): the file decides, as in Create.
+		newFile := filepath.Join(am.accountDir, path.Join("/", newLogin)+".yaml")
+		if _, err := os.Stat(newFile); err == nil && newFile != filepath.Join(am.accountDir, path.Join("/", oldLogin)+".yaml") {
+			return fmt.Errorf("rename account %s to %s: %w", oldLogin, newLogin, os.ErrExist)
+		}
+
 		err := os.Rename(
 			filepath.Join(am.accountDir, path.Join("/", account.Login)+".yaml"),
 			filepath.Join(am.accountDir, path.Join("/", newLogin)+".yaml"),
@@ -178,6 +184,11 @@ func (am *YAMLAccountManager) List() []hotline.Account {
 func (am *YAMLAccountManager) Delete(login string) error {
 	am.mu.Lock()
 	defer am.mu.Unlock()
+
+	// A login that names no account may still spell the file name of one ("./bob"): that file is not this login's.
+	if _, ok := am.accounts[login]; !ok {
+		return fmt.Errorf("delete account file: %w", os.ErrNotExist)
+	}
 
 	err := os.Remove(filepath.Join(am.accountDir, path.Join("/", login+".yaml")))
 	if err != nil {
